@@ -76,7 +76,11 @@ func init() {
 			n := c.N(1500, 60000)
 			for i := 0; i < n; i++ {
 				spc := genSpec(c.Rng, genOpts{maxParts: 3, maxFiles: 3, noFails: true})
-				if outs, ok := renderCase(c, spc, rendersFor(c.Rng), ""); ok {
+				scaled := ""
+				if c.Rng.Chance(1) {
+					scaled = "scale:" + scaleUp(c.Rng, spc) + ":"
+				}
+				if outs, ok := renderCase(c, spc, rendersFor(c.Rng), scaled); ok {
 					outs = outs[len(outs)-1:] // the render that is looked at is the last one
 					oracleMessage(c, spc, outs[0], true, false)
 				}
@@ -89,7 +93,11 @@ func init() {
 			n := c.N(800, 40000)
 			for i := 0; i < n; i++ {
 				spc := genSpec(c.Rng, genOpts{maxParts: 3, maxFiles: 3, noFails: true})
-				if outs, ok := renderCase(c, spc, rendersFor(c.Rng), ""); ok {
+				scaled := ""
+				if c.Rng.Chance(1) {
+					scaled = "scale:" + scaleUp(c.Rng, spc) + ":"
+				}
+				if outs, ok := renderCase(c, spc, rendersFor(c.Rng), scaled); ok {
 					outs = outs[len(outs)-1:] // the render that is looked at is the last one
 					oracleLines(c, spc, outs[0])
 				}
@@ -102,7 +110,11 @@ func init() {
 			n := c.N(1500, 60000)
 			for i := 0; i < n; i++ {
 				spc := genSpec(c.Rng, genOpts{maxParts: 2, maxFiles: 2, noFails: true, textHeavy: true, smallContent: true})
-				if outs, ok := renderCase(c, spc, rendersFor(c.Rng), ""); ok {
+				scaled := ""
+				if c.Rng.Chance(1) {
+					scaled = "scale:" + scaleUp(c.Rng, spc) + ":"
+				}
+				if outs, ok := renderCase(c, spc, rendersFor(c.Rng), scaled); ok {
 					outs = outs[len(outs)-1:] // the render that is looked at is the last one
 					oracleMessage(c, spc, outs[0], false, true)
 				}
